@@ -26,10 +26,12 @@ def normExcl : Option Bool → Option Bool
 def normIntRules (r : IntRules) : IntRules :=
   { r with exclusiveMinimum := normExcl r.exclusiveMinimum, exclusiveMaximum := normExcl r.exclusiveMaximum }
 
-def normKeyFormat (format : Option KeyFormat) (lr : ListRules) : Option KeyFormat :=
+/-- N6 applies to array items only: there the key annotation with the custom pattern is replaced
+by the array annotation and the reader recognises the id62 pattern as the id62 format. -/
+def normKeyFormat (inArray : Bool) (format : Option KeyFormat) (lr : ListRules) : Option KeyFormat :=
   match format with
   | none | some .informal => if lr.isSome then some .informal else none
-  | some (.custom p) => if p = id62Pattern then some .id62 else some (.custom p)
+  | some (.custom p) => if inArray && p = id62Pattern then some .id62 else some (.custom p)
   | some .uuid => some .uuid
   | some .id62 => some .id62
 
@@ -45,13 +47,13 @@ def normDecl (d : EnumDecl) : EnumDecl :=
 
 def normEnumName (d : EnumDecl) (n : String) : String := trimPrefix d.pfx (addPrefix d.pfx n)
 
-def normSchema : Schema → Schema
+def normSchema (inArray : Bool) : Schema → Schema
   | .string fmt rules lr => .string fmt rules lr
   | .integer fmt rules lr => .integer fmt (rules.map normIntRules) lr
   | .float is64 lr => .float is64 lr
   | .bool rules lr => .bool (match rules with | some { const := some k } => some { const := some k } | _ => none) lr
   | .bytes rules => .bytes (some (rules.getD {}))
-  | .key format entity lr => .key (normKeyFormat format lr) (entity.map normEntity) lr
+  | .key format entity lr => .key (normKeyFormat inArray format lr) (entity.map normEntity) lr
   | .enum d rules lr =>
     .enum (normDecl d)
       (some (match rules with
@@ -79,9 +81,14 @@ def hasItemConstraint : Schema → Bool
   | _ => false
 
 def normFieldSchema : FieldSchema → FieldSchema
-  | .single s => .single (normSchema s)
+  | .single s => .single (normSchema false s)
   | .array s rules sf =>
-    .array (normSchema s)
+    .array (normSchema true s)
+      (match rules with
+       | some r => some r
+       | none => if hasItemConstraint s then some {} else none) sf
+  | .map s rules sf =>
+    .map (normSchema true s)
       (match rules with
        | some r => some r
        | none => if hasItemConstraint s then some {} else none) sf
@@ -93,25 +100,25 @@ def normField (p : Property) : Property :=
 
 def int64Range (v : Int) : Bool := decide (-(2 ^ 63) ≤ v) && decide (v ≤ 2 ^ 63 - 1)
 
-/-- plain enum declarations: no option is written with the prefix, none is `UNSPECIFIED` itself
-(the implicit zero value is used) -/
-def enumDeclWF (d : EnumDecl) : Bool :=
-  d.options.all (fun o => !hasPrefix d.pfx o && o != "UNSPECIFIED") &&
-  !hasPrefix d.pfx "UNSPECIFIED"
+/-- the declared options after an explicit leading `UNSPECIFIED` (written with or without the
+prefix), which is the implicit zero value itself -/
+def EnumDecl.rest (d : EnumDecl) : List String :=
+  match d.options with
+  | [] => []
+  | o :: r => if trimPrefix d.pfx o == "UNSPECIFIED" then r else o :: r
 
 def schemaWFField (inArray : Bool) : Schema → Bool
   | .string fmt rules _ =>
     -- open findings: StringField.format is dropped; well-known patterns turn into formats / keys
+    -- (well-known patterns: only array items are still affected, their string annotation is
+    -- replaced by the array annotation)
     fmt.isNone &&
     (match rules with
-     | some r => (match r.pattern with | some p => (wellKnownStringPattern p).isNone | none => true)
+     | some r => (match r.pattern with | some p => !inArray || (wellKnownStringPattern p).isNone | none => true)
      | none => true)
   | .integer fmt (some r) _ =>
     intRulesWF fmt r && optAll r.minimum int64Range && optAll r.maximum int64Range
   | .key format entity lr =>
-    (match format with
-     | some (.custom p) => (wellKnownStringPattern p).isNone || lr.isNone
-     | _ => true) &&
     (if inArray then
        -- open finding: the array annotation overwrites the item's key annotation
        entity.isNone &&
@@ -121,7 +128,8 @@ def schemaWFField (inArray : Bool) : Schema → Bool
         | _ => lr.isSome)
      else true)
   | .enum d rules lr =>
-    enumDeclWF d &&
+    -- every enum declaration is covered: options written with or without the prefix, implicit or
+    -- explicit UNSPECIFIED, declared or default prefix
     (match rules with
      | some r => enumRulesWF d r
      | none => true) &&
@@ -131,13 +139,22 @@ def schemaWFField (inArray : Bool) : Schema → Bool
   | .date rules _ => !(inArray && rules.isSome)
   | .decimal rules _ => !(inArray && rules.isSome)
   | .object _ flatten _ => !(inArray && flatten)
-  | .any od types _ => !(inArray && (od || !types.isEmpty))
+  -- open finding since a9e5f7d: the reader rejects arrays and maps of Any, the compiler accepts them
+  | .any _ _ _ => !inArray
   | _ => true
 
-/-- The declarations `C04_field_roundtrip` quantifies over. -/
+/-- the list rules of the (item) schema -/
+def Schema.listRules : Schema → ListRules
+  | .string _ _ lr | .integer _ _ lr | .float _ lr | .bool _ lr | .key _ _ lr | .enum _ _ lr
+  | .oneof _ _ lr | .timestamp _ lr | .date _ lr | .decimal _ lr | .any _ _ lr => lr
+  | .bytes _ | .object _ _ _ => none
+
+/-- The declarations `C04_field_roundtrip` quantifies over. For maps the open class is wider than
+for arrays: the values' list rules (written on the entry's value field) are lost too. -/
 def WFField (p : Property) : Bool :=
-  schemaWFField p.schema.isArray p.schema.item &&
+  schemaWFField (p.schema.isArray || p.schema.isMap) p.schema.item &&
+  !(p.schema.isMap && p.schema.item.listRules.isSome) &&
   !(p.explicitlyOptional && p.effRequired) &&
-  !(p.schema.isArray && p.explicitlyOptional)
+  !((p.schema.isArray || p.schema.isMap) && p.explicitlyOptional)
 
 end J5V.Rules
